@@ -1,0 +1,137 @@
+//go:build verif
+
+// Contracts for the govc verifier (/verif). Comment-only: this file contains no code.
+package config
+
+//@ // ---- C15: sources and precedence ------------------------------------------------------------------------
+//@ func (*FlagSet).ParseFlags
+//@   props C15
+//@   requires f != nil && f.set != nil
+//@   assigns *
+//@   ensures nopanic
+//@
+//@ // marks the options given on the command line
+//@ func (*FlagSet).ParseFlags$1
+//@   props C15
+//@   requires fl != nil && f != nil && f.set != nil
+//@   assigns f.set[*]
+//@   ensures nopanic
+//@   ensures hasKey(f.set, fl.Name) && f.set[fl.Name]
+//@
+//@ // name of the environment variable for an option under a prefix
+//@ spec fun envName(pfx string, name string) string = toUpper(pfx + replaceN(name, ".", "_", -1))
+//@
+//@ // one option: command line wins (nothing is set); otherwise the first prefix (in order) whose variable exists supplies
+//@ // the raw string; otherwise the properties file; otherwise the default stays. Every source ends in the same FlagSet.Set.
+//@ func (*FlagSet).ParseFlags$2
+//@   props C15
+//@   requires fl != nil && f != nil && f.set != nil
+//@   assigns f.set[*], flagSetCalls, lastFlagName, lastFlagValue
+//@   ensures nopanic
+//@   ensures old(f.set[fl.Name]) ==> flagSetCalls == old(flagSetCalls)
+//@   ensures !old(f.set[fl.Name]) && (exists k int :: 0 <= k && k < len(prefixes) && hasKey(env, envName(prefixes[k], fl.Name))) ==> flagSetCalls == old(flagSetCalls) + 1 && lastFlagName == fl.Name && exists k int :: 0 <= k && k < len(prefixes) && hasKey(env, envName(prefixes[k], fl.Name)) && lastFlagValue == env[envName(prefixes[k], fl.Name)] && forall j int :: 0 <= j && j < k ==> !hasKey(env, envName(prefixes[j], fl.Name))
+//@   ensures !old(f.set[fl.Name]) && !(exists k int :: 0 <= k && k < len(prefixes) && hasKey(env, envName(prefixes[k], fl.Name))) && p != nil && propHas(p, fl.Name) ==> flagSetCalls == old(flagSetCalls) + 1 && lastFlagName == fl.Name && lastFlagValue == propGet(p, fl.Name)
+//@   ensures !old(f.set[fl.Name]) && !(exists k int :: 0 <= k && k < len(prefixes) && hasKey(env, envName(prefixes[k], fl.Name))) && (p == nil || !propHas(p, fl.Name)) ==> flagSetCalls == old(flagSetCalls)
+//@   // an option set from any source counts as set (IsSet does not depend on the source)
+//@   ensures flagSetCalls > old(flagSetCalls) ==> hasKey(f.set, fl.Name) && f.set[fl.Name]
+//@   loop 1 invariant forall j int :: 0 <= j && j <= rangeindex ==> !hasKey(env, envName(prefixes[j], fl.Name))
+//@   loop 1 invariant flagSetCalls == old(flagSetCalls) && f.set != nil
+//@
+//@ // ---- C15: loading never panics ----------------------------------------------------------------------------
+//@ func lex
+//@   props C15
+//@   requires len(s) > 0
+//@   assigns nothing
+//@   ensures nopanic
+//@   // every token consumes at least one and at most all of the input (progress of the parser below)
+//@   ensures 1 <= result2 && result2 <= len(s)
+//@   loop 1 invariant rangeindex >= 0 ==> state != "start"
+//@   loop 1 invariant state == "qtext" || state == "qtextesc" || state == "text" ==> rangeindex >= 0
+//@   loop 1 invariant state == "qtextend" ==> rangeindex >= 1
+//@
+//@ func lex$1
+//@   assigns nothing
+//@   ensures nopanic
+//@   ensures result == (r == ',')
+//@ func lex$2
+//@   assigns nothing
+//@   ensures nopanic
+//@   ensures result == (r == ';')
+//@ func lex$3
+//@   assigns nothing
+//@   ensures nopanic
+//@   ensures result == (r == '=')
+//@ func lex$4
+//@   assigns nothing
+//@   ensures nopanic
+//@   ensures result == (r == 92)
+//@ func lex$5
+//@   assigns nothing
+//@   ensures nopanic
+//@   ensures result == (r == '"' || r == 39)
+//@
+//@ func parseKVSlice$1
+//@   requires m != nil
+//@   assigns *
+//@   ensures m != nil
+//@
+//@ func parseKVSlice
+//@   props C15
+//@   assigns *
+//@   ensures nopanic
+//@   loop 1 invariant m != nil
+//@   loop 1 decreases len(s)
+//@
+//@ func parse
+//@   props C15
+//@   requires len(args) >= 1
+//@   assigns args[*]
+//@   ensures nopanic
+//@   loop 1 invariant 1 <= i && (cmdline == nil || fresh(cmdline) || ref(cmdline) == ref(args))
+//@
+//@ // ---- C15: a configuration that is accepted can be run ----------------------------------------------------
+//@ func load
+//@   props C15
+//@   requires len(cmdline) >= 1
+//@   assigns *
+//@   ensures err == nil ==> cfg != nil && cfg.GlobCacheSize > 0
+//@   ensures err == nil ==> 100 <= cfg.Proxy.NoRouteStatus && cfg.Proxy.NoRouteStatus <= 999
+//@   ensures err == nil ==> (cfg.Proxy.Strategy == "rr" || cfg.Proxy.Strategy == "rnd") && (cfg.Proxy.Matcher == "prefix" || cfg.Proxy.Matcher == "glob" || cfg.Proxy.Matcher == "iprefix")
+//@   ensures err == nil ==> cfg.Registry.Consul.ServiceMonitors >= 1
+//@
+//@ // helpers of load used through assumed contracts on this commit (they only build fresh values or register flags)
+//@ // (registration stores the default through p; load reads the registered fields only after ParseFlags, which havocs everything)
+//@ func (*FlagSet).FloatSliceVar
+//@   trusted
+//@   assigns nothing
+//@ func (*FlagSet).StringSliceVar
+//@   trusted
+//@   assigns nothing
+//@ func (*FlagSet).IsSet
+//@   trusted
+//@   assigns nothing
+//@ func NewFlagSet
+//@   trusted
+//@   assigns nothing
+//@   ensures result != nil && result.set != nil
+//@ func load$1
+//@   trusted
+//@   assigns nothing
+//@ func parseAuthSchemes
+//@   trusted
+//@   assigns nothing
+//@ func parseBGPPeers
+//@   trusted
+//@   assigns nothing
+//@ func parseCertSources
+//@   trusted
+//@   assigns nothing
+//@ func parseListen
+//@   trusted
+//@   assigns nothing
+//@ func parseListeners
+//@   trusted
+//@   assigns nothing
+//@ func parseScheme
+//@   trusted
+//@   assigns nothing
